@@ -602,34 +602,40 @@ func runHostileCase(c hostileCase, tmpDir string) hostileOutcome {
 			}
 		}
 		c.Bytes = body
-		chain := []*x509.Certificate{hrw.iss[0].Cert, hrw.iss[1].Cert}
-		return guarded(30*time.Second, func() error {
-			tr := roundTripFunc(func(req *http.Request) (*http.Response, error) {
-				isCRL := strings.Contains(req.URL.Host, "crl")
-				if c.Target == "ocsp-reply" {
-					if isCRL {
-						return httpReply(req, 200, "application/pkix-crl", hrw.crlBase), nil
-					}
-					return httpReply(req, 200, "application/ocsp-response", body), nil
-				}
-				if isCRL {
-					return httpReply(req, 200, "application/pkix-crl", body), nil
-				}
-				// OCSP says unknown, so that the CRL is consulted
-				return httpReply(req, 200, "application/ocsp-response", hrw.ocspOthers[2]), nil
-			})
-			client := &http.Client{Transport: tr}
-			hf, _ := corecrl.NewHTTPFetcher(client)
-			v, err := revocation.NewWithOptions(revocation.Options{OCSPHTTPClient: client, CRLFetcher: hf, CertChainPurpose: purpose.CodeSigning})
-			if err != nil {
-				return err
-			}
-			_, err = v.ValidateContext(context.Background(), revocation.ValidateContextOptions{CertChain: chain, AuthenticSigningTime: time.Now().Add(-time.Hour)})
-			_, _ = revocsp.CheckStatus(revocsp.Options{CertChain: chain, HTTPClient: client})
-			return err
-		})
+		return runReplyCase(c.Target, body)
 	}
 	return hostileOutcome{Outcome: "error", Detail: "unknown target"}
+}
+
+// runReplyCase: revocation of a two-certificate chain whose OCSP responder (or CRL distribution point) answers body
+func runReplyCase(target string, body []byte) hostileOutcome {
+	hrw.init()
+	chain := []*x509.Certificate{hrw.iss[0].Cert, hrw.iss[1].Cert}
+	return guarded(30*time.Second, func() error {
+		tr := roundTripFunc(func(req *http.Request) (*http.Response, error) {
+			isCRL := strings.Contains(req.URL.Host, "crl")
+			if target == "ocsp-reply" {
+				if isCRL {
+					return httpReply(req, 200, "application/pkix-crl", hrw.crlBase), nil
+				}
+				return httpReply(req, 200, "application/ocsp-response", body), nil
+			}
+			if isCRL {
+				return httpReply(req, 200, "application/pkix-crl", body), nil
+			}
+			// OCSP says unknown, so that the CRL is consulted
+			return httpReply(req, 200, "application/ocsp-response", hrw.ocspOthers[2]), nil
+		})
+		client := &http.Client{Transport: tr}
+		hf, _ := corecrl.NewHTTPFetcher(client)
+		v, err := revocation.NewWithOptions(revocation.Options{OCSPHTTPClient: client, CRLFetcher: hf, CertChainPurpose: purpose.CodeSigning})
+		if err != nil {
+			return err
+		}
+		_, err = v.ValidateContext(context.Background(), revocation.ValidateContextOptions{CertChain: chain, AuthenticSigningTime: time.Now().Add(-time.Hour)})
+		_, _ = revocsp.CheckStatus(revocsp.Options{CertChain: chain, HTTPClient: client})
+		return err
+	})
 }
 
 var _ = ocsp.Good
